@@ -719,6 +719,8 @@ class PybindWrapper:
 
         # Reset the serializing classes list
         self._serializing_classes = []
+        # Reset the docstring parser so its overload memory does not leak into the next file
+        self.xml_parser = XMLDocParser()
 
         submodules_init = []
 
